@@ -191,12 +191,36 @@ def is_tracing_span(span):
     return bool(ms) and ms[-1] in TRACING_MACROS
 
 
-def block_is_tracing(block):
-    """all statements and the terminator come from a tracing macro expansion"""
-    t = block["term"]
+def tracing_invocation(span):
+    """(file, line, col, eline, ecol) of the outermost tracing macro call, or None"""
+    if is_tracing_span(span):
+        return (span["file"], span["line"], span["col"], span["eline"], span.get("ecol", 10 ** 6))
+    return None
+
+
+def span_within(span, inv):
+    if span["file"] != inv[0]:
+        return False
+    lo = (span["line"], span["col"])
+    hi = (span["eline"], span.get("ecol", 0))
+    return (inv[1], inv[2]) <= lo and hi <= (inv[3], inv[4])
+
+
+def block_spans(block):
     items = [s["span"] for s in block["stmts"] if s["k"] in ("assign", "setdiscr")]
-    items.append(t["span"])
-    return all(is_tracing_span(sp) for sp in items)
+    items.append(block["term"]["span"])
+    return items
+
+
+def block_in_invocation(block, inv):
+    """every statement and the terminator lie inside the source range of the macro call
+    (expanded code, or the user's argument expressions)"""
+    return all(span_within(sp, inv) for sp in block_spans(block))
+
+
+def block_is_tracing(block):
+    """the terminator comes from a tracing macro expansion"""
+    return is_tracing_span(block["term"]["span"])
 
 
 def block_is_neutral(block):
@@ -207,25 +231,27 @@ def block_is_neutral(block):
 
 
 def tracing_region(cfg, entry):
-    """If `entry` starts a region made only of tracing-macro blocks (plus neutral gotos),
-    return (region set, exit block) when the region has a single exit; else None."""
+    """If the *terminator* of `entry` belongs to the expansion of a tracing macro call
+    (info!/warn!/...), return (region set, exit block): the blocks reachable from it whose
+    code lies inside that call's source range (expanded code or the user's argument
+    expressions), provided the region has a single exit.  Else None."""
     blocks = cfg.blocks
-    if not block_is_tracing(blocks[entry]):
+    inv = tracing_invocation(blocks[entry]["term"]["span"])
+    if inv is None:
         return None
     region = set()
     exits = set()
-    st = [entry]
+    st = list(cfg.succ[entry])
     while st:
         b = st.pop()
         if b in region:
             continue
         bl = blocks[b]
-        if block_is_tracing(bl) or (block_is_neutral(bl) and b != entry):
+        if block_in_invocation(bl, inv) or block_is_neutral(bl):
             region.add(b)
             st.extend(cfg.succ[b])
         else:
             exits.add(b)
-    # neutral blocks that only lead to an exit may have been swallowed; fine.
     if len(exits) != 1:
         return None
     return region, next(iter(exits))
